@@ -297,11 +297,10 @@ impl<StorageT: PrimInt> Rule<StorageT> {
         if let Some(sz) = lex_flags.dfa_size_limit {
             re = re.dfa_size_limit(sz)
         }
-        if let Some(lim) = lex_flags.nest_limit {
-            // The user's limit was applied to the regex they wrote above: the wrapper group must
-            // not count against it.
-            re = re.nest_limit(lim.saturating_add(1))
-        }
+        // The limit (the user's, or regex's default of 250) was applied to the regex the user wrote
+        // above: the two levels which the wrapper adds (a concatenation and a group) must not
+        // count against it.
+        re = re.nest_limit(lex_flags.nest_limit.unwrap_or(250).saturating_add(2));
 
         let re = re.build()?;
         #[allow(deprecated)]
